@@ -9,6 +9,7 @@ They are corollaries of `reachable_inv` (Lemmas/HubOps.lean): the structural
 invariant holds in every reachable state.
 -/
 import SigModel.Lemmas.HubOps
+import SigModel.Lemmas.HubView
 
 namespace SigModel.Hub
 
@@ -66,6 +67,59 @@ theorem C04_room_listeners (ops : List Op) (b : Nat) (r : String) (s : Nat) :
 theorem C04_rooms_per_backend (ops : List Op) (b₁ b₂ : Nat) (r : String) (s : Nat) (hne : b₁ ≠ b₂)
     (h₁ : s ∈ membersOf (run {} ops).1 b₁ r) : s ∉ membersOf (run {} ops).1 b₂ r :=
   fun h₂ => hne (C04_at_most_one_room ops s b₁ b₂ r r h₁ h₂).1
+
+/-! ### Observer side
+
+`Sess.seenJoin` models `ClientSession.seenJoinedEvents`.  The observer clause of the statement ("every member that
+replays the join and leave events it received obtains exactly that member set") is, in the model,
+`viewBad h = []` (Model/HubView.lean).  Proved here, for **every** reachable state:
+the replay of what is written to a session *is* its `seenJoin` list (`C04_view_is_replay`), and a join / leave
+event published to a room changes the view of exactly the room's non-virtual members by exactly that event and
+touches no other session, room or listener list (`C04_observer_publication_partial`).  Not proved: the lifting of this
+one-publication statement through the intermediate states of the compound operations to `viewBad = []` in every reachable
+state -- that is evaluated by the driver after every step of every case (a test of the model, not a theorem) and judged on
+the implementation's own deliveries (`judgeViews`). -/
+
+/-- The view an observer obtains by replaying what was written to it is the session's `seenJoin` list. -/
+theorem C04_view_is_replay (x : Sess) (m : Msg) :
+    (filterMessage x m).1.seenJoin = replay x.seenJoin (filterMessage x m).2 := replay_filter x m
+
+/-- A join event is passed on exactly as far as it is news; leave events always pass. -/
+theorem C04_join_filter_exact (x : Sess) (ss : List Nat) (t : Nat) :
+    (t ∈ (filterMessage x (.join ss)).1.seenJoin ↔ t ∈ x.seenJoin ∨ t ∈ ss) ∧
+    (∀ fresh, (filterMessage x (.join ss)).2 = some (.join fresh) → ∀ u, u ∈ fresh → u ∉ x.seenJoin ∧ u ∈ ss) :=
+  ⟨seen_after_join x ss t, fun fresh h => join_passes_fresh x ss fresh h⟩
+
+/-- **Observer side, one publication (partial: see the section comment).**  In every reachable state, publishing
+a join or leave event to room `(b, r)` updates the view of every non-virtual member of the room by exactly
+that event, and changes nothing of any session that is not such a member, of the rooms or of the listener lists. -/
+theorem C04_observer_publication_partial (ops : List Op) (outs : List Out) (closes : List Nat) (b : Nat) (r : String) (m : Msg)
+    (hm : (∃ ss, m = .join ss) ∨ (∃ ss, m = .leave ss)) :
+    let h := (run {} ops).1
+    let a' := pubRoom ⟨h, outs, closes⟩ b r (.msg m)
+    (∀ l, l ∈ membersOf h b r → (∃ x, h.sess l = some x ∧ x.kind ≠ .virtual) →
+        ∀ t, t ∈ seenOf a'.h l ↔ viewAfter m (seenOf h l) t) ∧
+    (∀ l, ¬ (l ∈ membersOf h b r ∧ ∃ x, h.sess l = some x ∧ x.kind ≠ .virtual) → a'.h.sess l = h.sess l) ∧
+    a'.h.rooms = h.rooms ∧ a'.h.roomL = h.roomL := by
+  intro h a'
+  have hi := reachable_inv ops
+  have hL := C04_room_listeners ops b r
+  have hl : ∀ l ∈ h.roomL b r, Listens h l := by
+    intro l hl
+    obtain ⟨x, hx, _, hr, hk⟩ := (hi.roomL_iff b r l).mp hl
+    exact ⟨x, hx, hk, by simp [hr]⟩
+  obtain ⟨p1, p2, p3, p4⟩ := pubRoom_event ⟨h, outs, closes⟩ b r m hm (hi.roomL_nodup b r) hl
+  refine ⟨?_, ?_, p3, p4⟩
+  · intro l h1 h2; exact p1 l ((hL l).mpr ⟨h1, h2⟩)
+  · intro l hn; exact p2 l (fun hl' => hn ((hL l).mp hl'))
+
+/-- Non-vacuity / witness: in the demo history below every observer's view is its room's member set, and the
+publication theorem's premises are met by two sessions. -/
+example : viewBad (run {} [.connect 1, .connect 2, .hello 1 0 .client "alice" false false,
+    .hello 2 0 .client "bob" false false, .join 1 "roomA" "nc1" (.ok none ""), .join 2 "roomA" "nc2" (.ok none "")]).1 = []
+    ∧ membersOf (run {} [.connect 1, .connect 2, .hello 1 0 .client "alice" false false,
+    .hello 2 0 .client "bob" false false, .join 1 "roomA" "nc1" (.ok none ""), .join 2 "roomA" "nc2" (.ok none "")]).1 0 "roomA" = [1, 2] := by
+  decide +kernel
 
 /-! Non-vacuity: a concrete history in which the statements are about something. -/
 
